@@ -22,9 +22,12 @@ type Gen struct {
 	avail map[string][]InRef
 	nkeys int
 	vseq  int
+	// a timer task exists in this case
+	timers bool
 }
 
 func (g *Gen) emit(line string) string {
+	g.out.Begin(line) // (if the code under test kills the process, the case that was running is the failing input)
 	a := g.e.exec(line)
 	g.out.Emit(line, a)
 	g.canon = append(g.canon, line)
@@ -110,7 +113,112 @@ func (g *Gen) ktx(kind string, from string, prog string) int {
 
 func (g *Gen) val() string { g.vseq++; return fmt.Sprintf("v%d", g.vseq) }
 
-func (g *Gen) key() string { return g.e.w.Keys[g.r.Intn(len(g.e.w.Keys))] }
+// the keys the pool motifs work on (the world also tracks timer-bucket rows and the keys z0..z2 that only timer tasks write)
+var poolKeys = []string{"k0", "k1", "k2", "k3", "k4", "k5"}
+
+func (g *Gen) key() string { return poolKeys[g.r.Intn(len(poolKeys))] }
+
+func (g *Gen) height() int { return int(g.e.w.P.L.GetMeta().TrunkHeight) }
+
+// timerAdd submits a transaction that registers a timer task ($timer_task.Add): at height h run prog.
+func (g *Gen) timerAdd(h int, prog string) int {
+	idx := g.e.w.freshIdx()
+	g.emit(fmt.Sprintf("atx %d from=%s timer=%d:%s", idx, g.user(), h, prog))
+	g.timers = true
+	return idx
+}
+
+// timerProg draws the program of a timer task: writes to keys only timer tasks use (cannot conflict with the pool),
+// or reads / writes / deletes of the keys the pool motifs work on (conflicts with pending transactions happen).
+func (g *Gen) timerProg(shared bool) string {
+	z := fmt.Sprintf("z%d", g.r.Intn(3))
+	if !shared {
+		if g.r.Chance(1, 4) {
+			return "put_" + z + "_" + g.val() + "+put_z" + fmt.Sprint(g.r.Intn(3)) + "_" + g.val()
+		}
+		return "put_" + z + "_" + g.val()
+	}
+	switch g.r.Intn(4) {
+	case 0:
+		return "get_" + g.key() + "+put_" + z + "_" + g.val()
+	case 1:
+		return "put_" + g.key() + "_" + g.val()
+	case 2:
+		return "del_" + g.key()
+	}
+	return "get_" + g.key() + "+put_" + g.key() + "_" + g.val()
+}
+
+// pendingTimerTx reports whether a pending transaction touches the timer bucket.
+func (g *Gen) pendingTimerTx() bool {
+	for _, i := range g.e.admitted {
+		t := g.e.w.Txs[i]
+		for _, k := range t.KOut {
+			if strings.HasPrefix(k.Key, timerKeyPfx) {
+				return true
+			}
+		}
+	}
+	return false
+}
+
+// sharedTaskDue: a timer task of the producer's live state is due at height h and its program touches a key the pool
+// motifs work on. (In a round that walks the state — truncation, state behind the ledger — the pending transactions are
+// re-admitted by a goroutine alongside packBlock; with such a task the outcome depends on that race.)
+func (g *Gen) sharedTaskDue(h int) bool {
+	ts, err := g.e.tasksOf(g.e.w.P)
+	if err != nil {
+		return true
+	}
+	for _, t := range ts {
+		if t.Height != h {
+			continue
+		}
+		for _, k := range poolKeys {
+			if strings.Contains(t.Prog, " "+k) {
+				return true
+			}
+		}
+	}
+	return false
+}
+
+// mine emits one round of the real miner, preceded by the claims the model needs: the trunk height and the timer
+// tasks of the producer's live state.
+func (g *Gen) mine(trunc int) {
+	e := g.e
+	if e.broken {
+		return
+	}
+	g.emit(fmt.Sprintf("height %d", g.height()))
+	if ts, err := e.tasksOf(e.w.P); err == nil {
+		for _, t := range ts {
+			if t.ConfirmedH >= 0 {
+				g.emit(fmt.Sprintf("task %d %d c=%d", t.Height, t.ID, t.ConfirmedH))
+			} else {
+				g.emit(fmt.Sprintf("task %d %d p", t.Height, t.ID))
+			}
+		}
+	}
+	line := "mine"
+	if trunc > 0 {
+		line += fmt.Sprintf(" trunc=%d", trunc)
+	} else if g.r.Chance(1, 6) {
+		line += " fresh=1"
+	}
+	if g.r.Chance(1, 6) {
+		line += " pow=1" // the consensus re-stamps the block in CalculateBlock (new nonce, id, signature)
+	}
+	g.emit(line)
+}
+
+// a timer task registered by a pending transaction: due at the very next block (while its registration is still
+// pending) or later
+func (g *Gen) motifTimer() int {
+	d := 1 + g.r.Intn(3)
+	g.timerAdd(g.height()+d, g.timerProg(g.r.Chance(1, 3)))
+	return 1
+}
 
 // ---------- motifs (each returns roughly how many transactions it added)
 
@@ -298,7 +406,7 @@ func (g *Gen) motifEvict() int {
 	}
 	// a key no pending transaction has written: the peer's transaction must cite the confirmed version
 	var free []string
-	for _, k := range g.e.w.Keys {
+	for _, k := range poolKeys { // (not the keys timer tasks write: the peer's block carries the timer transaction of its height)
 		if g.e.kvStr(g.e.w.P, k) == g.e.kvStr(g.e.w.R, k) {
 			free = append(free, k)
 		}
@@ -343,10 +451,20 @@ func (g *Gen) pruneAvail() {
 
 func (g *Gen) scenario(profile string) {
 	g.canon = nil
+	g.timers = false
 	fee := g.r.Bool()
 	reset := "reset fee=0"
+	gap := 0
 	if fee {
 		reset = "reset fee=1"
+		// the award schedule: configured award, decay by a (dyadic) ratio every gap blocks
+		if g.r.Chance(3, 4) {
+			reset += fmt.Sprintf(" award=%d", []int{50, 1000, 37, 64, 1}[g.r.Intn(5)])
+			if g.r.Chance(4, 5) {
+				gap = 1 + g.r.Intn(3)
+				reset += fmt.Sprintf(" decay=%d:%s", gap, []string{"1/2", "3/4", "1/4", "1/1", "5/4", "0/1", "7/8"}[g.r.Intn(7)])
+			}
+		}
 	}
 	big := profile == "size"
 	if big {
@@ -356,16 +474,48 @@ func (g *Gen) scenario(profile string) {
 		g.out.Stats.Notes = append(g.out.Stats.Notes, "reset failed: "+a)
 		return
 	}
+	if fee {
+		for _, h := range []int{0, 1 + g.r.Intn(3), gap*2 + g.r.Intn(2), 4 + g.r.Intn(9)} {
+			g.emit(fmt.Sprintf("award %d", h))
+		}
+	}
 	g.avail = map[string][]InRef{}
-	// setup block: every user splits its genesis output; four keys are created
+	// rounds before the pool under test: the setup block, sometimes one or two more blocks
+	filler := 0
+	if !big && g.r.Chance(1, 3) {
+		filler = 1 + g.r.Intn(2)
+	}
+	// setup block: every user splits its genesis output; four keys are created; sometimes a timer task is registered
+	// that is due in the block that packs the pool under test
 	for i := 0; i < 4; i++ {
 		u := fmt.Sprintf("u%d", i)
 		g.xfer("atx", u, InRef{0, i, u, 1000}, []string{u, u, u, u}, "", 0)
 	}
 	g.ktx("atx", "u0", "put_k0_a+put_k1_b")
 	g.ktx("atx", "u1", "put_k2_c+put_k3_d")
-	g.emit("pack")
+	if !big && g.r.Chance(1, 4) {
+		g.timerAdd(2+filler, g.timerProg(g.r.Chance(1, 2)))
+		if g.r.Chance(1, 3) {
+			g.timerAdd(2+filler+g.r.Intn(2), g.timerProg(false))
+		}
+	}
+	g.mine(0)
 	g.pruneAvail()
+	for i := 0; i < filler; i++ {
+		switch g.r.Intn(3) {
+		case 0:
+			g.motifReadersWriterSmall()
+		case 1:
+			g.motifChain()
+		}
+		if g.r.Chance(1, 3) && !(len(g.e.admitted) > 0 && g.sharedTaskDue(g.height()+2)) {
+			// a peer block reaches the producer's ledger only; the round has to walk the state to it first (the pending
+			// transactions are rolled back and re-admitted by that walk)
+			g.emit("fblock txs= lazy=1")
+		}
+		g.mine(0)
+		g.pruneAvail()
+	}
 
 	target := 2 + g.r.Intn(5)
 	if g.r.Chance(1, 5) {
@@ -403,7 +553,13 @@ func (g *Gen) scenario(profile string) {
 		g.motifReadersWriterSmall()
 	} else {
 		for tries := 0; n < target && tries < 12; tries++ {
-			switch g.r.Intn(9) {
+			switch g.r.Intn(10) {
+			case 9:
+				if g.r.Chance(1, 2) {
+					n += g.motifTimer()
+				} else {
+					n += g.motifReadersWriter()
+				}
 			case 0, 1:
 				n += g.motifReadersWriter()
 			case 2:
@@ -417,7 +573,8 @@ func (g *Gen) scenario(profile string) {
 			case 6:
 				n += g.motifStale()
 			case 7:
-				if tries == 0 || g.r.Chance(1, 3) {
+				// (the peer's block carries the timer transaction of its height: no task on pool keys may be due there)
+				if (tries == 0 || g.r.Chance(1, 3)) && !g.sharedTaskDue(g.height()+1) {
 					n += g.motifEvict()
 				}
 			case 8:
@@ -559,8 +716,22 @@ func (g *Gen) check() {
 			g.emit("replay " + idsStr(p))
 		}
 	}
-	g.emit("pack")
-	if len(e.packed) > 0 {
+	// the block: mostly the real miner's full round, sometimes after a truncation the consensus asks for (the setup
+	// block stays), sometimes packBlock alone (hook VerifPackBlock) with the ledger / state steps done by the harness
+	h := g.height()
+	trunc := 0
+	if h >= 2 {
+		trunc = 1 + g.r.Intn(h-1)
+	}
+	switch {
+	case trunc > 0 && !g.pendingTimerTx() && !(len(e.admitted) > 0 && g.sharedTaskDue(h-trunc+1)) && g.r.Chance(1, 5):
+		g.mine(trunc)
+	case !g.timers && g.r.Chance(1, 8):
+		g.emit("pack")
+	default:
+		g.mine(0)
+	}
+	if len(e.packed) > 0 && !e.broken {
 		if len(e.packed) == len(e.snapNodes) {
 			g.emit("order " + idsStr(e.packed))
 		}
@@ -572,6 +743,9 @@ func (g *Gen) check() {
 // scripted builds one named corner-case scenario (used to write the corpus files).
 func (g *Gen) scripted(name string) {
 	g.canon = nil
+	if g.scriptedMiner(name) {
+		return
+	}
 	fee := "0"
 	if name == "diamond-fee" {
 		fee = "1"
@@ -628,6 +802,81 @@ func (g *Gen) scripted(name string) {
 		g.motifEvict()
 	}
 	g.check()
+}
+
+// scriptedMiner: the corner cases of the miner round (truncation with a decaying award, timer tasks).
+func (g *Gen) scriptedMiner(name string) bool {
+	g.avail = map[string][]InRef{}
+	setup := func(reset string) {
+		g.emit(reset)
+		for i := 0; i < 4; i++ {
+			u := fmt.Sprintf("u%d", i)
+			g.xfer("atx", u, InRef{0, i, u, 1000}, []string{u, u, u, u}, "", 0)
+		}
+		g.ktx("atx", "u0", "put_k0_a+put_k1_b")
+	}
+	switch name {
+	case "miner-truncate-decay":
+		// the award halves every 3 blocks; the consensus asks to cut the tip (height 2 again), later two blocks (the
+		// re-mined block stands in an earlier period than the cut tip)
+		setup("reset fee=1 award=1000 decay=3:1/2")
+		for _, h := range []int{0, 2, 3, 5, 6, 9} {
+			g.emit(fmt.Sprintf("award %d", h))
+		}
+		g.mine(0)
+		g.pruneAvail()
+		g.motifReadersWriterSmall()
+		g.mine(0)
+		g.mine(1)
+		g.motifChain()
+		g.mine(0)
+		g.mine(0)
+		g.motifReadersWriterSmall()
+		g.mine(2)
+		g.mine(0)
+		g.check()
+	case "timer-due":
+		// a timer task registered in block 1 is due at height 3; the pool of that round does not touch its keys; then the
+		// consensus cuts the block that ran it and the task runs again in the re-mined block
+		setup("reset fee=0")
+		g.timerAdd(3, "put_z0_t1+put_z1_t2")
+		g.timerAdd(3, "put_z0_t3")
+		g.timerAdd(5, "del_z1")
+		g.mine(0)
+		g.pruneAvail()
+		g.mine(0)
+		g.motifReadersWriterSmall()
+		g.motifChain()
+		g.check()
+		g.mine(1)
+		g.mine(0)
+		g.mine(0)
+	case "timer-tx-cites-later-transaction":
+		// (known finding) the registration of a task due at the very next height is still pending when the block is packed
+		setup("reset fee=0")
+		g.mine(0)
+		g.timerAdd(2, "put_z0_t1")
+		g.check()
+	case "timer-reads-pending-write":
+		// (known finding, same key) a confirmed task reads k1; a pending transaction has written k1
+		setup("reset fee=0")
+		g.timerAdd(3, "get_k1+put_z0_t1")
+		g.mine(0)
+		g.mine(0)
+		g.ktx("atx", "u1", "put_k1_y")
+		g.check()
+	case "timer-tx-overwrites-version-read-later":
+		// (known finding) a confirmed task overwrites k0; a pending transaction only read k0
+		setup("reset fee=0")
+		g.timerAdd(3, "put_k0_t1")
+		g.mine(0)
+		g.mine(0)
+		g.ktx("atx", "u1", "get_k0")
+		g.check()
+	default:
+		return false
+	}
+	return true
 }
 
 // ---------- raw graphs for TopSortDFS
